@@ -203,11 +203,43 @@ def scene_case(spec):
     return out
 
 
+
+def full_case(spec):
+    """end-to-end: wall polygons -> composed model (Model/Full.v) vs from_polygon ... mono"""
+    import fullroom
+    rng = np.random.default_rng([spec["seed"], 70000 + spec["idx"]])
+    out = {"evaluations": 1, "mismatches": [], "prop_failures": [], "dist": {"end_to_end_from_polygons": 1}, "nontrivial": []}
+    nb = int(rng.integers(1, 3))
+    cfg = S.draw_config(rng, nb=nb, multi_dir=(spec["idx"] % 2 == 1), random_tables=(spec["idx"] % 4 == 3),
+                        max_patches=spec["max_patches"], offset=(spec["idx"] % 3 == 0))
+    K = int(rng.integers(1, 3))
+    radi0 = S.build(cfg, bake=False)
+    src = S.draw_inside(rng, cfg["dims"], off=cfg["offset"])
+    recs = [S.draw_inside(rng, cfg["dims"], off=cfg["offset"])]
+    c, dt, dur = P.draw_timing(rng, cfg, K, ["long", "coarse", "short"][spec["idx"] % 3], radi0, src, recs)
+    tag = dict(full=True, dims=cfg["dims"], patch_size=cfg["patch_size"], n_patches=cfg["n_patches"], nb=nb,
+               nt=cfg["nt"], offset=list(cfg["offset"]), src=src.tolist(), rec=recs[0].tolist(), c=c, dt=dt, dur=dur, K=K,
+               seed=spec["seed"], idx=spec["idx"])
+    out["sample"] = tag
+    mism, mu, rejected = fullroom.full_case(cfg, src, recs, c, dt, dur, K)
+    if rejected:
+        out["rejected"] = 1
+        return out
+    out["max_ulp"] = mu
+    out["traces"] = 1
+    for m in mism:
+        m.update(case=tag)
+        out["mismatches"].append(m)
+    out["nontrivial"].append(case_hash(tag))
+    return out
+
 def run(res):
     quick = res.tier == "quick"
     n = 16 if quick else 160
     specs = [dict(seed=res.seed, idx=i, kind=("poly" if i % 2 else "box"), max_patches=(16 if quick else 30)) for i in range(n)]
     for r in fw.run_parallel(scene_case, specs):
+        res.absorb(r)
+    for r in fw.run_parallel(full_case, [dict(seed=res.seed, idx=i, max_patches=(14 if quick else 26)) for i in range(8 if quick else 80)]):
         res.absorb(r)
     res.rule = ("alternating shoeboxes (from_polygon) and closed polyhedra built from triangles through the constructor "
                 "(tetrahedra, octahedra, 12-triangle boxes); 1-3 bands, orders 0-4, one-direction / multi-direction "
@@ -219,4 +251,7 @@ def run(res):
 def replay(res, payload):
     for f in payload.get("failures", []) + payload.get("correspondence", []):
         case = f.get("case", {})
-        res.absorb(scene_case(dict(seed=case["seed"], idx=case["idx"], kind=case["kind"], max_patches=30)))
+        if case.get("full"):
+            res.absorb(full_case(dict(seed=case["seed"], idx=case["idx"], max_patches=26)))
+        else:
+            res.absorb(scene_case(dict(seed=case["seed"], idx=case["idx"], kind=case["kind"], max_patches=30)))
